@@ -1,6 +1,7 @@
 package main
 
 import (
+	"reflect"
 	"strings"
 
 	v1 "github.com/keep94/sqroot"
@@ -71,6 +72,17 @@ func opts3(p printArgs, extra ...v3.Option) []v3.Option {
 		v3.LeadingDecimal(p.lead), v3.TrailingLF(p.trail)}, extra...)
 }
 
+// guardOpts hands the options over as a window of a longer caller-owned slice (spare capacity of two nil entries)
+// and reports afterwards whether the entries behind the window are still untouched.
+func guardOpts[T any](opts []T) ([]T, func() bool) {
+	n := len(opts)
+	buf := make([]T, n+2)
+	copy(buf, opts)
+	return buf[:n], func() bool {
+		return reflect.ValueOf(&buf[n]).Elem().IsZero() && reflect.ValueOf(&buf[n+1]).Elem().IsZero()
+	}
+}
+
 func pos1of(rng [][2]int) v1.Positions {
 	var b v1.PositionsBuilder
 	for _, r := range rng {
@@ -110,21 +122,31 @@ func runSprint(c *Case) []string {
 		return []string{errs}
 	}
 	var s string
+	intact := func() bool { return true }
 	switch c.Ver {
 	case "v1":
-		s = v1.Sprint(v.s1, pos1of(p.rng), opts1(p)...)
+		o, ok := guardOpts(opts1(p))
+		intact = ok
+		s = v1.Sprint(v.s1, pos1of(p.rng), o...)
 	case "v2":
-		s = v2.Sprint(v.s2, pos2of(p.rng), opts2(p)...)
+		o, ok := guardOpts(opts2(p))
+		intact = ok
+		s = v2.Sprint(v.s2, pos2of(p.rng), o...)
 	default:
+		o, ok := guardOpts(opts3(p))
+		intact = ok
 		if p.fn == 1 {
 			f := v.fin3()
 			if f == nil {
 				return []string{"NOTFINITE"}
 			}
-			s = v3.Swrite(f, opts3(p)...)
+			s = v3.Swrite(f, o...)
 		} else {
-			s = v3.Sprint(v.s3, pos3of(p.rng), opts3(p)...)
+			s = v3.Sprint(v.s3, pos3of(p.rng), o...)
 		}
+	}
+	if !intact() {
+		return []string{"OPTIONS-MODIFIED"} // the library wrote to the caller's option slice
 	}
 	out := codePoints(s)
 	// Sprint must equal Fprint into a builder with the byte count of the text
